@@ -263,6 +263,7 @@ def record_one(inp, paths=None, wd=None, tag="r"):
         o = {"exception": obs["exception"], "ints": [], "edges": [], "removed": [], "calls": [], "attr": [], "missing": []}
     else:
         o = {"exception": "", "ints": obs["ints"], "edges": obs["edges"], "removed": obs["removed"], "calls": obs["calls"], "missing": obs["missing"],
+             "missing0": obs["missing0"],
              "attr": [{"at": [int(x) for x in k.split(",")], "attrs": {kk: vv for kk, vv in v.items() if kk != "resid"}} for k, v in sorted(obs["attr"].items())]}
     return {"input": inp, "obs": o}
 
